@@ -845,7 +845,7 @@ func (st *State) tryConst(t *Term) *Term {
 	if t.isConst() || st.solver == nil || st.concrete != nil {
 		return t
 	}
-	if t.sort != SF64 && !t.sort.isBV() {
+	if t.sort != SF64 && !t.sort.isBV() && t.sort != SReal && t.sort != SInt {
 		return t
 	}
 	if c, ok := st.constCache[t.id]; ok {
@@ -867,7 +867,18 @@ func (st *State) tryConst(t *Term) *Term {
 	}
 	var c *Term
 	var ne *Term
-	if t.sort == SF64 {
+	if t.sort == SReal || t.sort == SInt {
+		mv0 := mv[t.id]
+		if mv0.R == nil || mv0.Approx {
+			return t
+		}
+		if t.sort == SReal {
+			c = st.ts.RealRat(mv0.R)
+		} else {
+			c = st.ts.intern(&Term{op: OConst, sort: SInt, r: new(bigRat).Set(mv0.R)})
+		}
+		ne = st.ts.Not(st.ts.Eq(t, c))
+	} else if t.sort == SF64 {
 		c = st.ts.F64(mv[t.id].F)
 		ne = st.ts.Not(st.ts.intern(&Term{op: OEq, sort: SBool, args: []*Term{t, c}}))
 	} else {
